@@ -66,7 +66,7 @@ dates = st.one_of(st.dates(), st.sampled_from([_dt.date.min, _dt.date.max, _dt.d
 dict_keys = st.one_of(
     st.sampled_from(["a", "b", "c", "id", "k k", "", "é"]),
     st.sampled_from(["a", "b", "c", "d", "e"]),
-    st.sampled_from([2, 3, -7, None, b"k", ("t", 2), "...", 2.5]),
+    st.sampled_from([2, 3, -7, None, b"k", ("t", 2), "...", 2.5, "{x}", "a{", "a.b", "a.name", "%s"]),
 )
 
 SCALAR_TYPES = ["none", "bool", "int", "float", "str", "bytes", "uuid4", "datetime", "date"]
@@ -174,6 +174,14 @@ def float_spec(draw, sat=True):
                 s["max"] = v + abs(draw(nice_floats))
             if draw(st.booleans()):
                 s["precision"] = draw(st.integers(1, 15))
+                # a bound between the value and the value rounded at that precision (same rounding bucket)
+                rv = round(v, s["precision"])
+                if rv != v and abs(v) < 1e15 and draw(st.booleans()):
+                    mid = (rv + v) / 2
+                    if rv < v and mid <= v:
+                        s["min"] = mid
+                    elif rv > v and mid >= v:
+                        s["max"] = mid
     else:
         p = None
         if mode == "precision" or draw(st.booleans()):
@@ -348,7 +356,15 @@ def any_spec(draw, depth, sat, opts):
     if draw(st.integers(0, 7)) == 0:
         return {"t": "any"}
     sub = spec_strategy(depth - 1, sat, **opts)
-    return {"t": "any", "alts": draw(st.lists(sub, min_size=1, max_size=3))}
+    alts = draw(st.lists(sub, min_size=1, max_size=3))
+    if draw(st.integers(0, 3)) == 0:
+        # look-alike alternatives: an alternative next to a single-step variant of itself (one element
+        # replaced by `...` or by an accept-all schema, one flag toggled, one bound moved ...)
+        from .props.c15 import _variant
+        twin = _variant(draw, alts[0])
+        if twin is not None:
+            alts.insert(draw(st.integers(0, len(alts))), twin)
+    return {"t": "any", "alts": alts}
 
 
 def spec_strategy(depth=3, sat=True, alias=True, patterns=True, custom=False, derived=False):
@@ -466,8 +482,27 @@ def forwarding_class():
             return self.__class__(self.props.update(
                 inner2=self.props.get("inner2").__accept__(visitor, value=value, **kwargs)))
 
+    class FwdStrict(CustomSchema[FwdProps]):
+        """Hooks written with exact signatures: keyword-only parameters and no **kwargs catch-all."""
+
+        def __call__(self, inner):
+            return self.__class__(self.props.update(inner=inner))
+
+        def __represent__(self, visitor, *, indent=0):
+            return self.props.inner.__accept__(visitor, indent=indent)
+
+        def __generate__(self, visitor):
+            return self.props.inner.__accept__(visitor)
+
+        def __validate__(self, visitor, *, value, path):
+            return self.props.inner.__accept__(visitor, value=value, path=path)
+
+        def __substitute__(self, visitor, *, value):
+            return self.__class__(self.props.update(inner=self.props.inner.__accept__(visitor, value=value)))
+
     _CUSTOM["cls"] = Fwd
     _CUSTOM["sub"] = Fwd2
+    _CUSTOM["strict"] = FwdStrict
     return Fwd
 
 
@@ -560,7 +595,8 @@ def _build(spec, wrap_custom, share):
         inner = build(spec["spec"], wrap_custom, share)
         if not wrap_custom:
             return inner
-        cls = forwarding_subclass() if spec.get("sub") else forwarding_class()
+        forwarding_class()
+        cls = _CUSTOM["strict"] if spec.get("strict") else _CUSTOM["sub"] if spec.get("sub") else _CUSTOM["cls"]
         return cls()(inner)
     if t == "or":
         return build(spec["a"], wrap_custom, share) | build(spec["b"], wrap_custom, share)
